@@ -35,8 +35,10 @@ type throwEvent struct {
 	mch             chan imessage
 	activated       atomic.Bool
 	awaitingActions []chan IAction
-	once            sync.Once
-	satisfier       *logic.ThrowEventSatisfier
+	// running is true while the run loop (started by Trigger / NextAction) drains mch
+	running   atomic.Bool
+	once      sync.Once
+	satisfier *logic.ThrowEventSatisfier
 }
 
 func newThrowEvent(wr *wiring, element *schema.ThrowEvent, idGenerator id.IGenerator) (evt *throwEvent, err error) {
@@ -59,6 +61,7 @@ func newThrowEvent(wr *wiring, element *schema.ThrowEvent, idGenerator id.IGener
 
 func (evt *throwEvent) run(ctx context.Context, sender tracing.ISenderHandle) {
 	defer sender.Done()
+	defer evt.running.Store(false)
 
 	for {
 		select {
@@ -88,8 +91,15 @@ func (evt *throwEvent) run(ctx context.Context, sender tracing.ISenderHandle) {
 }
 
 func (evt *throwEvent) ConsumeEvent(ev event.IEvent) (result event.ConsumptionResult, err error) {
-	evt.mch <- eventMessage{event: ev}
 	result = event.Consumed
+	// Nobody drains the node's small inbox before its run loop has been
+	// started (by Trigger or by the first token) or after it has ended: an
+	// event queued then could never be handled, and once the inbox is full
+	// the delivery - Process.ConsumeEvent - would block forever.
+	if !evt.running.Load() {
+		return
+	}
+	evt.mch <- eventMessage{event: ev}
 	return
 }
 
@@ -102,6 +112,7 @@ func (evt *throwEvent) flow(ctx context.Context) {
 func (evt *throwEvent) Trigger(ctx context.Context) {
 	evt.once.Do(func() {
 		sender := evt.tracer.RegisterSender()
+		evt.running.Store(true)
 		go evt.run(ctx, sender)
 	})
 
@@ -111,6 +122,7 @@ func (evt *throwEvent) Trigger(ctx context.Context) {
 func (evt *throwEvent) NextAction(ctx context.Context, flow Flow) chan IAction {
 	evt.once.Do(func() {
 		sender := evt.tracer.RegisterSender()
+		evt.running.Store(true)
 		go evt.run(ctx, sender)
 	})
 
